@@ -251,3 +251,149 @@ pub fn walk(rec: &mut Rec, rng: &mut Rng, prop: &'static str, judged: Family) {
         rec.sample(|| json!({"walk": history, "judged_family": format!("{:?}", judged), "judged_steps": judged_steps}));
     }
 }
+
+/// The same idea on a `Date`: a chain of add_/sub_days, month/year shifts, setters and clears on one value.  Steps of
+/// the judged family are compared with the calendar model (through an independently built Date of the expected day);
+/// steps of other families only move the state.
+pub fn walk_date(rec: &mut Rec, rng: &mut Rng, prop: &'static str, judged: Family) {
+    use super::diff::{diff_date, sane_date, DateDiff};
+    use astrolabe::Date;
+    let mut day: i64 = match rng.below(4) {
+        0 => rng.range_i64(-1500, 1500),
+        1 => {
+            let a = rng.range_i64(1890, 2110);
+            let m = rng.below(12) as u32 + 1;
+            cal::days_from_civil(a, m, cal::month_len(a, m)) - rng.below(3) as i64
+        }
+        2 => cal::days_from_civil(*rng.pick(&[-400i64, -100, -4, 0, 4, 1900, 2000, 2024, 2100]), 2, 28) + rng.below(3) as i64,
+        _ => rng.range_i64(cal::MIN_DAY + 2000, cal::MAX_DAY - 2000),
+    };
+    let Some(mut d) = sane_date(day) else {
+        rec.bin(super::diff::SKIP_START);
+        return;
+    };
+    let s0 = cal::ymd(day);
+    let mut history: Vec<String> = vec![format!("start {}-{:02}-{:02}", s0.0, s0.1, s0.2)];
+    let inner_day = |x: i64| x > cal::MIN_DAY + 1000 && x < cal::MAX_DAY - 1000;
+    let steps = 4 + rng.below(9);
+    let mut judged_steps = 0;
+    for _ in 0..steps {
+        // (description, family, expected day or None = must be refused, operation)
+        let (desc, fam, exp, op): (String, Family, Option<i64>, Box<dyn Fn(&Date) -> Option<Date>>) = match rng.below(8) {
+            0 | 1 => {
+                let c = match rng.below(3) {
+                    0 => rng.below(40) as u32,
+                    1 => rng.below(100_000) as u32,
+                    _ => rng.below(400) as u32,
+                };
+                let sub = rng.chance(1, 2);
+                let t = if sub { day - c as i64 } else { day + c as i64 };
+                (format!("{}({})", if sub { "sub_days" } else { "add_days" }, c), Family::Arithmetic, Some(t), Box::new(move |x: &Date| Some(if sub { x.sub_days(c) } else { x.add_days(c) })))
+            }
+            2 | 3 => {
+                let opi = rng.below(4) as usize;
+                let (name, dir, mult) = MONTH_OPS[opi];
+                let n = if rng.chance(2, 3) { rng.below(30) as u32 } else { rng.below(4000) as u32 };
+                let t = cal::shift_months(day, dir * mult * n as i64);
+                (format!("{}({})", name, n), Family::Months, Some(t), Box::new(move |x: &Date| {
+                    Some(match opi {
+                        0 => x.add_months(n),
+                        1 => x.sub_months(n),
+                        2 => x.add_years(n),
+                        _ => x.sub_years(n),
+                    })
+                }))
+            }
+            4 | 5 | 6 => {
+                let f = rng.below(4) as usize;
+                let fl = fields(day as i128 * D);
+                let v: i64 = match f {
+                    0 => (fl.year + rng.range_i64(-40, 40)).clamp(-5_000_000, 5_000_000),
+                    1 => rng.range_i64(0, 13),
+                    2 => rng.range_i64(0, 32),
+                    _ => rng.range_i64(0, 367),
+                };
+                let exp = model_set(day as i128 * D, f, v).ok().map(|l| l.div_euclid(D) as i64);
+                (format!("{}({}){}", DT_SETTERS[f], v, if exp.is_none() { " [must be refused]" } else { "" }), Family::SetClear, exp, Box::new(move |x: &Date| match f {
+                    0 => x.set_year(v as i32).ok(),
+                    1 => x.set_month(v as u32).ok(),
+                    2 => x.set_day(v as u32).ok(),
+                    _ => x.set_day_of_year(v as u32).ok(),
+                }))
+            }
+            _ => {
+                let k = 1 + rng.below(2) as usize;
+                let t = model_clear(day as i128 * D, k).div_euclid(D) as i64;
+                (DT_CLEARS[k].to_string(), Family::SetClear, Some(t), Box::new(move |x: &Date| Some(if k == 1 { x.clear_until_month() } else { x.clear_until_day() })))
+            }
+        };
+        if let Some(t) = exp {
+            if !inner_day(t) {
+                continue;
+            }
+        }
+        history.push(desc.clone());
+        let opname: String = desc.split('(').next().unwrap_or("").trim().to_string();
+        let r = trap(|| op(&d));
+        rec.eval();
+        match (r, exp) {
+            (Err(p), _) => {
+                if fam == judged {
+                    rec.violation(format!("{}|date-walk|{}|panic|{},{}", prop, opname, p.class, p.site()), || json!({"history": history, "panic": p.to_json()}));
+                }
+                return;
+            }
+            (Ok(None), None) => {} // refused as the model demands: the value stays
+            (Ok(None), Some(_)) => {
+                if fam == judged {
+                    rec.violation(format!("{}|date-walk|{}|refused-valid", prop, opname), || json!({"history": history}));
+                }
+                return;
+            }
+            (Ok(Some(nd)), None) => {
+                if fam == judged {
+                    rec.violation(format!("{}|date-walk|{}|accepted-invalid", prop, opname), || json!({"history": history, "result": trap(|| super::diff::date_reads(&nd)).unwrap_or_default()}));
+                }
+                return;
+            }
+            (Ok(Some(nd)), Some(t)) => {
+                if fam == judged {
+                    match diff_date(&nd, t) {
+                        Ok(DateDiff::Same) => judged_steps += 1,
+                        Ok(DateDiff::Skip) => {
+                            rec.bin(super::diff::SKIP_EXPECTED);
+                            return;
+                        }
+                        Ok(DateDiff::Differs(g, e)) => {
+                            rec.violation(format!("{}|date-walk|{}|diverges-from-model", prop, opname), || json!({"history": history, "step": desc, "result_reads": g, "independently_built_expected_reads": e}));
+                            return;
+                        }
+                        Err(p) => {
+                            rec.violation(format!("{}|date-walk|{}|result-unreadable|{},{}", prop, opname, p.class, p.site()), || json!({"history": history, "panic": p.to_json()}));
+                            return;
+                        }
+                    }
+                    day = t;
+                    d = nd;
+                } else {
+                    // a mover: take what the library reports, go on only if it reads like a canonical Date of that day
+                    let Ok(ts) = trap(|| nd.timestamp()) else { return };
+                    let nday = ts.div_euclid(86_400) + cal::DAYS_TO_1970;
+                    if !inner_day(nday) || !matches!(diff_date(&nd, nday), Ok(DateDiff::Same)) {
+                        rec.bin("walk/stopped-at-untrustworthy-state(other-property)");
+                        return;
+                    }
+                    day = nday;
+                    d = nd;
+                }
+            }
+        }
+    }
+    if judged_steps > 0 {
+        rec.bin("date-walk/with-judged-steps");
+    }
+    rec.nontrivial(hash_str(&history.join(";")));
+    if rec.want_sample() {
+        rec.sample(|| json!({"history": history, "final_day": day}));
+    }
+}
